@@ -278,6 +278,11 @@ class XMLResourceLoader:
 
         except SyntaxError as err:
             raise XMLResourceParseError("invalid XML syntax: {}".format(err)) from err
+        except LookupError as err:
+            if isinstance(err, (KeyError, IndexError)):
+                raise
+            # An unknown encoding in the XML declaration
+            raise XMLResourceParseError("invalid XML encoding: {}".format(err)) from err
         finally:
             self._lazy_lock.release()
 
@@ -326,6 +331,11 @@ class XMLResourceLoader:
                     remaining_levels += 1
         except SyntaxError as err:
             raise XMLResourceParseError("invalid XML syntax: {}".format(err)) from err
+        except LookupError as err:
+            if isinstance(err, (KeyError, IndexError)):
+                raise
+            # An unknown encoding in the XML declaration
+            raise XMLResourceParseError("invalid XML encoding: {}".format(err)) from err
 
     def _clear(self, elem: ElementType,
                ancestors: Optional[list[ElementType]] = None) -> None:
